@@ -1,4 +1,4 @@
-HOOK_COMMITS = ["415c720"]
+HOOK_COMMITS = ["415c720", "9649be6", "80c839d"]
 NOT_YET = {}
 _NOTE = ("Trusted: TLC 1.8 and the TLA+ community modules; the Python glue of harness/glue.py (pattern string <-> AST, text <-> code points, "
          "state projection); bounds as stated in the evidence file. The specification is the only oracle.")
